@@ -13,7 +13,8 @@ use metrique_aggregation::traits::{AggregateSink, FlushableSink, RootSink};
 use metrique_aggregation::value::{KeepLast, Sum};
 use std::collections::{BTreeMap, HashMap, HashSet};
 use std::sync::atomic::{AtomicBool, AtomicU64, Ordering};
-use std::sync::{Arc, Barrier};
+use std::sync::Arc;
+use vcommon::sync::SpinGate as Barrier;
 use std::time::{Duration, Instant};
 use vcommon::recording::{Obs, Op, Val};
 use vcommon::serde_json::{Value, json};
